@@ -226,6 +226,10 @@ def gen_model_cfg(rng: random.Random, tb: dict, shock_prone=False) -> dict:
             cfg["capital"]["shuffle"] = rng.randrange(1 << 30)
         if kind == "dataframe" and rng.random() < 0.4:
             cfg["capital"]["as_row"] = True
+        if kind == "series" and random.Random(repr(cfg["capital"]["values"][:2]) + "cat").random() < 0.3:
+            # the result of a groupby on categorical columns whose categories are in order of first appearance: the index levels
+            # are categorical and their category order is not alphabetical
+            cfg["capital"]["categorical"] = True
         if rng.random() < 0.2:
             # a ratio dictionary given as well: the explicit capital vector prevails
             cfg["capital"]["also_dict"] = {s: rng.choice([4, 2.5, 10]) for s in secs}
@@ -294,6 +298,11 @@ def build_model(tb: dict, cfg: dict, io=None, capital_perm=None, dict_order=None
             random.Random(cap["shuffle"]).shuffle(capital_perm)
         if capital_perm is not None:
             s = s.iloc[capital_perm]
+        if cap.get("categorical"):
+            df_ = s.rename("v").reset_index().iloc[::-1]
+            for lev_ in ("region", "sector"):
+                df_[lev_] = pd.Categorical(df_[lev_], categories=list(df_[lev_].unique()))
+            s = df_.groupby(["region", "sector"], observed=True)["v"].sum()
         kw["productive_capital_vector"] = s
     elif cap["kind"] == "dataframe":
         s = pd.DataFrame({"capital": cap["values"]}, index=ind, dtype="int64" if cap.get("int_dtype") and max(cap["values"]) < 1e15 else float)
